@@ -128,6 +128,14 @@ impl LocalSpanStack {
         }
     }
 
+    /// Whether properties and events added to the current local parent are recorded.
+    #[inline]
+    pub fn is_recording(&mut self) -> bool {
+        self.current_span_line()
+            .map(|span_line| span_line.is_sampled())
+            .unwrap_or(false)
+    }
+
     pub fn current_collect_token(&mut self) -> Option<CollectToken> {
         let span_line = self.current_span_line()?;
         span_line.current_collect_token()
